@@ -115,3 +115,28 @@ package node
 //@ # ---- frames: the unbinding and trimming steps write nothing but owners and deletion marks ----
 //@ func releaseUnUsedIP
 //@   modifies networkv1beta1.IP.Status, networkv1beta1.NetworkInterface.Status
+
+//@ for C08
+//@ # ---- handleStatus: an address leaves the record only when the cloud call that released it succeeded — the entries
+//@ # ---- removed are exactly the batch that call was given (one batch per interface and family per round); everything else
+//@ # ---- marked Deleting stays in the record, counted against the interface's quota and kept for the next round ----
+//@ ghost c08b4 []aliyunClient.IPSet
+//@ ghost c08b4ok bool = false
+//@ ghost c08b6 []aliyunClient.IPSet
+//@ ghost c08b6ok bool = false
+//@ func ReconcileNode.handleStatus
+//@   requires n != nil && node != nil
+//@   at call UnAssignPrivateIPAddressesV2: ghost c08b4 = arg2
+//@   at call UnAssignPrivateIPAddressesV2: ghost c08b4ok = (result == nil)
+//@   at call UnAssignIpv6AddressesV2: ghost c08b6 = arg2
+//@   at call UnAssignIpv6AddressesV2: ghost c08b6ok = (result == nil)
+//@ # the removal loop runs over a batch that was released successfully ...
+//@ guard call lo.ForEach in ReconcileNode.handleStatus: (c08b4ok && arg0 == c08b4) || (c08b6ok && arg0 == c08b6)
+//@ # ... and removes the entry of the batch element it is handed, nothing else
+//@ guard call delete in handleStatus$1: arg1 == ip.IPAddress
+//@ guard call delete in handleStatus$2: arg1 == ip.IPAddress
+//@ # no other removal from the record: the only direct delete drops a whole interface after the cloud deleted it, and there
+//@ # is no bulk removal by status
+//@ guard call delete in ReconcileNode.handleStatus: arg0 == node.Status.NetworkInterfaces
+//@ guard? call maps.DeleteFunc in ReconcileNode.handleStatus: false
+//@ guard? call clear in ReconcileNode.handleStatus: false
